@@ -204,14 +204,21 @@ def expected(layers):
 
 
 def yaml_anchor_variant(doc):
-    """{..., 'l': [...]} written with an anchored map reused by alias and extended through a merge key; returns (text, logical doc)."""
+    """{..., 'l': [...]} written with an anchored map reused by alias and extended through a merge key (single and list of three); returns (text, logical doc)."""
     d = clone(doc)
     tpl = {'n': 7, 'f': 0.1, 'big': 2**53 + 1}
     d['tpl'] = tpl
     d['alias'] = clone(tpl)
     d['ext'] = dict(tpl, f=1.5, extra='x')
-    rest = {k: v for k, v in d.items() if k not in ('tpl', 'alias', 'ext')}
+    # `<<: [*a, *b, *c]`: earlier entries of the list win over later ones, keys written out win over all of them
+    d['mrg_a'] = {'k1': 'a', 's': 'a'}
+    d['mrg_b'] = {'k2': 'b', 's': 'b', 't': 'b'}
+    d['mrg_c'] = {'k3': 'c', 't': 'c', 'u': 'c'}
+    d['ext3'] = {'k1': 'a', 's': 'a', 'k2': 'b', 't': 'b', 'k3': 'c', 'u': 'own'}
+    own = ('tpl', 'alias', 'ext', 'mrg_a', 'mrg_b', 'mrg_c', 'ext3')
+    rest = {k: v for k, v in d.items() if k not in own}
     text = 'tpl: &t\n  n: 7\n  f: 0.1\n  big: %d\nalias: *t\next:\n  <<: *t\n  f: 1.5\n  extra: x\n' % (2**53 + 1)
+    text += 'mrg_a: &ma {k1: a, s: a}\nmrg_b: &mb {k2: b, s: b, t: b}\nmrg_c: &mc {k3: c, t: c, u: c}\next3:\n  <<: [*ma, *mb, *mc]\n  u: own\n'
     text += ser.to_yaml(rest, style='quoted')
     return text, d
 
